@@ -9,7 +9,7 @@ import sys
 from concurrent.futures import ThreadPoolExecutor
 
 HERE = os.path.dirname(os.path.dirname(os.path.abspath(__file__)))
-SEEDS = [1, 2, 3, 5]
+SEEDS = [int(x) for x in os.environ.get("VERIF_SWEEP_SEEDS", "1,2,3,5").split(",")]
 
 
 def one(name):
